@@ -14,6 +14,21 @@ class StringV:
     def __repr__(self):
         return f"StringV({self.value})"
 
+    # two concrete strings are equal when they have the same characters (not only when they are the same object, which
+    # is what the conversion cache makes of equal un-annotated constants)
+    def __eq__(self, other):
+        if not isinstance(other, StringV):
+            return NotImplemented
+        return self.value == other.value
+
+    def __ne__(self, other):
+        if not isinstance(other, StringV):
+            return NotImplemented
+        return self.value != other.value
+
+    def __hash__(self):
+        return hash(self.value)
+
 
 def StrConcat(*args):
     """
